@@ -176,6 +176,8 @@ def tls_dist(rs):
         d["host_not_a_server_name"] += len(o) >= 7 and o[6] == "0"
         d["host_dns"] += not h.startswith("[") and not (h.replace(".", "").isdigit() and h.count(".") == 3)
         d["alpn_offered_both_sides"] += t[2] != "-" and t[7] != "-"
+        d["uri_built_from_parts"] = d.get("uri_built_from_parts", 0) + (len(t) > 8 and t[8] == "p")
+        d["caller_host_header"] = d.get("caller_host_header", 0) + (len(t) > 9 and t[9] != "-")
         d["peers"][t[6]] = d["peers"].get(t[6], 0) + 1
         d["results"][o[0]] = d["results"].get(o[0], 0) + 1
         if len(o) > 1:
@@ -408,7 +410,7 @@ PROPS = {
                      "Hd.Tls.C12_failure_is_error", "Hd.Tls.C12_success", "Hd.Tls.C12_others_not_wrapped", "Hd.Tls.C12_no_panic",
                      "Hd.Tls.C12_run_spec"],
         "streams": [
-            {"name": "tls", "quick": 4000, "thorough": 200000, "head": 8, "unit": 1, "batch": 20000,
+            {"name": "tls", "quick": 4000, "thorough": 200000, "head": 10, "unit": 1, "batch": 20000,
              "exhaustive": "tls-exhaustive", "exhaustive_always": True, "nontrivial": tls_nontrivial, "distribution": tls_dist},
         ],
         "rule": "the real TlsTransport (with / without a rustls ClientConfig trusting harness/certs/ca.pem) around an inner transport "
@@ -417,8 +419,9 @@ PROPS = {
                 "closes before/after the first flight, truncates the handshake, sends a fatal alert, or stays silent. Schemes "
                 "http/https/ws/wss/HTTPS/Wss/foo/httpss x 20 host forms (DNS incl. wildcard one/two labels, upper case, trailing dot, "
                 "underscore; IPv4; three bracketed IPv6; URI-legal names rustls rejects) x ports x ALPN none/h2/http1.1/both on either "
-                "side. Every run includes the exhaustive grid scheme x host x peer x {TLS configured, not} plus the 4x4 ALPN square "
-                "(3008 cases) besides the random cases. After a successful connect the client writes a marker through the stream; "
+                "side; the URI either parsed from a string or assembled with Uri::builder (scheme spelling kept); optionally a caller-supplied "
+                "Host header naming another host. Every run includes the exhaustive grid scheme x host x peer x {TLS configured, not} "
+                "(+ from-parts / Host-header variants for the good and plaintext peers) plus the 4x4 ALPN square (4928 cases) besides the random cases. After a successful connect the client writes a marker through the stream; "
                 "observed: caller result, first raw bytes at the peer (TLS record / ASCII), marker visible raw, SNI parsed from the "
                 "raw ClientHello by the harness' own parser, negotiated ALPN, marker received through TLS. "
                 "non-trivial = TLS configured and scheme https/wss in any spelling",
@@ -436,7 +439,7 @@ PROPS = {
         "streams": [
             {"name": "np", "quick": 3000, "thorough": 200000, "head": 11, "unit": 1, "batch": 20000,
              "exhaustive": "np-exhaustive", "exhaustive_always": True, "nontrivial": np_nontrivial, "distribution": np_dist},
-            {"name": "tls", "quick": 500, "thorough": 20000, "head": 8, "unit": 1, "batch": 20000,
+            {"name": "tls", "quick": 500, "thorough": 20000, "head": 10, "unit": 1, "batch": 20000,
              "exhaustive": "tls-exhaustive", "exhaustive_always": True, "nontrivial": tls_nontrivial, "distribution": tls_dist},
         ],
         "rule": "requests from a grammar - 11 methods incl. CONNECT, TRACE and an extension method; absolute URIs (9 schemes incl. odd "
